@@ -1550,6 +1550,10 @@ def normalise_local_lambdas(tree, known):
                 if any(isinstance(x, ast.Name) and x.id in deleted for st in body[1:] for x in ast.walk(st)):
                     break
                 body = body[1:]
+            if len(body) == 1 and isinstance(body[0], ast.Expr) and isinstance(body[0].value, ast.Call) and isinstance(body[0].value.func, ast.Name) \
+                    and body[0].value.func.id in ("setattr", "delattr"):
+                # the call returns None, like falling off the end of the def
+                body = [ast.Return(value=body[0].value)]
             if len(body) != 1 or not isinstance(body[0], ast.Return) or body[0].value is None:
                 continue
             expr = body[0].value
